@@ -47,7 +47,7 @@ TABLE = {
                 quick=[dict(n=8, blocks=30)],
                 thorough=[dict(n=60, blocks=50), dict(n=60, blocks=60, seed_off=37)],
                 need=[("proposal", True), ("proposal", False), ("voting", True), ("voting", False)]),
-    "C16": dict(evm=True, directed=["native_to_contract", "evm_rejected_then_more", "evm_basic", "evm_value", "evm_fail", "evm_selfdestruct", "transfer_to_created", "fee_edges", "price_change", "no_proposer_block", "two_proposals_one_block", "same_block_withdraw", "many_unbonding"],
+    "C16": dict(evm=True, directed=["mingas_above_intrinsic", "native_to_contract", "evm_rejected_then_more", "evm_basic", "evm_value", "evm_fail", "evm_selfdestruct", "transfer_to_created", "fee_edges", "price_change", "no_proposer_block", "two_proposals_one_block", "same_block_withdraw", "many_unbonding"],
                 quick=[dict(n=8, blocks=25, maxtx=7)],
                 thorough=[dict(n=60, blocks=40, maxtx=8), dict(n=60, blocks=40, maxtx=8, seed_off=41)],
                 need=[("transfer", True), ("transfer", False), ("withdraw", True)]),
